@@ -1635,6 +1635,43 @@ def check_C10(ck):
                       "a hash search failure is an allowed, reported outcome (C05)"]
 
 
+def policy_template_programs(ck, n):
+    """generated programs: classes, methods and free-function definitions written once as templates over the policy and
+    installed for three policies obtained by rebind, one after the other, with updates and sweeps of every installed
+    policy in between; every sweep must print what the specification says for the registry"""
+    import hprog
+    rng = random.Random(repr((ck.seed, ck.prop, "policy-template")))
+    progs, scripts, sweeps = [], [], {}
+    for i in range(n):
+        reg = gen.gen_registry(rng, n_classes=rng.randint(3, 6), shapes=["V", "VV", "VNV", "NV"], abstract_p=0.15)
+        while not reg.methods:
+            reg = gen.gen_registry(rng, n_classes=rng.randint(3, 6), shapes=["V", "VV", "VNV", "NV"], abstract_p=0.15)
+        src, sc, k = hprog.prog_policy_template(reg, rng)
+        name = "pt%d-%s" % (i, reg.family)
+        progs.append((name, src))
+        scripts.append((name, ["policy plain"] + sc))
+        sweeps[name] = k
+    res = hprog.build_and_run(progs, jobs=16)
+    orc = verif.run_model(scripts, mode="--oracle")
+    lines = 0
+    for (name, src), (_, sc) in zip(progs, scripts):
+        rc, so, se = res[name]
+        got, want = so.splitlines(), orc.get(name, []) * sweeps[name]
+        lines += len(got)
+        if (rc != 0 or got != want) and not any(f_ for _, f_ in ck.violations):
+            d_ = [(k_, a_, b_) for k_, (a_, b_) in enumerate(zip(got, want)) if a_ != b_][:3]
+            found = rc is not None and (rc != 0 or bool(d_))
+            per = max(1, len(orc.get(name, [])))
+            ck.violation(verif.write_replay(ck.prop, name, {
+                "property": ck.prop,
+                "kind": ("failing input: one domain installed for several policies: a policy does not dispatch as the specification prescribes for its registry "
+                         "after another policy was installed or updated" if found else "the generated program does not compile"),
+                "first_differences(line, program, specification)": d_, "sweep_of_first_difference": (d_[0][0] // per) if d_ else None,
+                "sweeps": [l.strip() for l in src.splitlines() if "sweep<" in l or "update<" in l or "Install<" in l][-24:],
+                "rc": rc, "stderr": (se or "")[-1500:], "oracle_script": sc[:60], "program": "tools/hprog.py prog_policy_template"}), found)
+    return {"programs": len(progs), "policies_per_program": 3, "lines_compared": lines}
+
+
 def check_C14(ck):
     rng = random.Random(repr((ck.seed, "C14")))
     scripts, marks = load_corpus("C14"), {}
@@ -1738,7 +1775,9 @@ def check_C14(ck):
     if f and not ck.violations:
         f[2].update(property="C14", script=f[1])
         ck.violation(verif.write_replay("C14", f[0], f[2]), True)
+    pt = policy_template_programs(ck, tier_n(ck, 6, 40))
     ck.coverage = proof_coverage(ck, ["C14"], {
+        "one_domain_several_policies_programs": pt,
         "evaluations": len(scripts), "distinct_nontrivial": len({repr(l) for _, l in scripts}),
         "rule": "two or three policies (three obtained from one another by rebind, plus stock-like policies with other facets) registering the same class ids "
                 "with different methods; registrations and updates of one policy are interleaved with a full dump and a call sweep of another policy before "
